@@ -1,6 +1,7 @@
 import ZkModel.Public
 import ZkModel.TreeDriver
 import ZkModel.Keygen
+import ZkModel.Json
 /-!
 # Protocol / codec / RLN-object part of the line protocol
 -/
@@ -105,6 +106,31 @@ def unitSnark (dec snark : Bool) : Snark Unit :=
 def verdict (o : Outcome Bool) : String :=
   match o with | .ok true => "accept" | .ok false => "reject-false" | .err => "reject-err" | .panic => "panic"
 
+/-! ## the JSON witness codec (`ZkModel/Json.lean`) -/
+def utf8OfHex (h : String) : Option String :=
+  (parseHexBytes h).bind (fun bs => String.fromUTF8? (ByteArray.mk bs.toArray))
+
+/-- one `key=value` token of a `json_from` line -/
+def parseJTok (tok : String) : Option (String × Json.JVal) :=
+  match tok.splitOn "=" with
+  | [k, v] =>
+    if v == "o" then some (k, .other)
+    else if v.startsWith "n:" then
+      let r := (v.drop 2).toString
+      if r == "-" then some (k, .nums []) else
+      ((r.splitOn ",").mapM (fun (x : String) => x.toNat?)).map (fun l => (k, .nums l))
+    else if v.startsWith "s:" then (utf8OfHex (v.drop 2).toString).map (fun s => (k, .str s))
+    else if v.startsWith "t:" then
+      (((v.drop 2).toString.splitOn ",").mapM utf8OfHex).map (fun l => (k, .strs l))
+    else none
+  | _ => none
+
+def jsonOfWitnessBytes (b : List UInt8) (enc : Witness → Outcome Json.JObj) : String :=
+  match deserializeWitness b with
+  | .ok (wi, _) => out (enc wi) (fun o => "ok " ++ Json.render o)
+  | .err => "err"
+  | .panic => "panic"
+
 /-- ops that need no tree -/
 def stepPure (e : PEnv) (w : List String) : Option String :=
   match w with
@@ -174,6 +200,9 @@ def stepPure (e : PEnv) (w : List String) : Option String :=
   | ["rln_wit_json", b] => (parseHexBytes b).map (fun b =>
       if e.spec then (match Spec.decWitness b with | some wi => s!"ok {showWitness wi} same=true" | none => "err")
       else out (deserializeWitness b) (fun r => s!"ok {showWitness r.1} same=true"))
+  | ["json_text", b] => (parseHexBytes b).map (fun b => jsonOfWitnessBytes b Json.witnessToJson)
+  | ["bigint_text", b] => (parseHexBytes b).map (fun b => jsonOfWitnessBytes b Json.witnessToBigintJson)
+  | "json_from" :: toks => (toks.mapM parseJTok).map (fun o => out (Json.witnessFromJson o) (fun wi => "ok " ++ showWitness wi))
   | ["json_rt", b] => (parseHexBytes b).map (fun b =>
       if e.spec then (match Spec.decWitness b with | some wi => s!"ok {showWitness wi} same=true" | none => "err")
       else out (deserializeWitness b) (fun r => s!"ok {showWitness r.1} same=true"))
